@@ -9,11 +9,16 @@ package main
 import (
 	"context"
 	"fmt"
+	"net"
 	"strings"
+	"sync"
+	"time"
 
 	"github.com/ovh/kmip-go"
+	"github.com/ovh/kmip-go/kmipclient"
 	"github.com/ovh/kmip-go/kmipserver"
 	"github.com/ovh/kmip-go/payloads"
+	"github.com/ovh/kmip-go/ttlv"
 
 	"verifharness/internal/h"
 )
@@ -76,6 +81,152 @@ func c19LateRegistration(c *h.Ctx) {
 		c.Count("late-registration")
 		if got != st.want {
 			c.Fail("C19/server/late-registration", fmt.Sprintf("after %s the request ran [%s], expected [%s]", st.what, got, st.want), map[string]any{"kind": "late-registration", "step": i})
+			return
+		}
+	}
+}
+
+// c19ClientDialThroughChain: the request a client sends while it is being dialled (version discovery) is a
+// request like any other: the registered middlewares see it, in order, transport innermost; a middleware
+// that answers it itself (versions pinned from a cache) keeps it off the wire.
+func c19ClientDialThroughChain(c *h.Ctx) {
+	for _, short := range []bool{false, true} {
+		cj := map[string]any{"kind": "late-registration", "sub": "dial-through-chain", "short_circuit": short}
+		c.Current(cj)
+		var trace []string
+		wire := 0
+		dialer := func(ctx context.Context) (net.Conn, error) {
+			cli, srv := net.Pipe()
+			go func() {
+				defer srv.Close()
+				st := ttlv.NewStream(srv, -1)
+				for {
+					req := new(kmip.RequestMessage)
+					if st.Recv(req) != nil {
+						return
+					}
+					wire++
+					resp := &kmip.ResponseMessage{Header: kmip.ResponseHeader{ProtocolVersion: req.Header.ProtocolVersion, TimeStamp: time.Unix(1, 0), BatchCount: int32(len(req.BatchItem))}}
+					for _, bi := range req.BatchItem {
+						it := kmip.ResponseBatchItem{Operation: bi.Operation, UniqueBatchItemID: bi.UniqueBatchItemID, ResultStatus: kmip.ResultStatusSuccess}
+						if _, ok := bi.RequestPayload.(*payloads.DiscoverVersionsRequestPayload); ok {
+							it.ResponsePayload = &payloads.DiscoverVersionsResponsePayload{ProtocolVersion: []kmip.ProtocolVersion{kmip.V1_4, kmip.V1_3, kmip.V1_2}}
+						}
+						resp.BatchItem = append(resp.BatchItem, it)
+					}
+					if st.Send(resp) != nil {
+						return
+					}
+				}
+			}()
+			return cli, nil
+		}
+		mw := func(name string) kmipclient.Middleware {
+			return func(next kmipclient.Next, ctx context.Context, msg *kmip.RequestMessage) (*kmip.ResponseMessage, error) {
+				op := "?"
+				if len(msg.BatchItem) > 0 {
+					op = fmt.Sprint(uint32(msg.BatchItem[0].Operation))
+				}
+				trace = append(trace, name+">"+op)
+				if short && name == "B" && op == fmt.Sprint(uint32(kmip.OperationDiscoverVersions)) {
+					trace = append(trace, "<"+name)
+					return &kmip.ResponseMessage{Header: kmip.ResponseHeader{ProtocolVersion: msg.Header.ProtocolVersion, TimeStamp: time.Unix(1, 0), BatchCount: 1},
+						BatchItem: []kmip.ResponseBatchItem{{Operation: kmip.OperationDiscoverVersions, ResultStatus: kmip.ResultStatusSuccess,
+							ResponsePayload: &payloads.DiscoverVersionsResponsePayload{ProtocolVersion: []kmip.ProtocolVersion{kmip.V1_2}}}}}, nil
+				}
+				r, err := next(ctx, msg)
+				trace = append(trace, "<"+name)
+				return r, err
+			}
+		}
+		var cl *kmipclient.Client
+		var err error
+		panicked := ""
+		func() {
+			defer func() {
+				if p := recover(); p != nil {
+					panicked = fmt.Sprint(p)
+				}
+			}()
+			cl, err = kmipclient.Dial("pipe", kmipclient.WithDialerUnsafe(dialer), kmipclient.WithMiddlewares(mw("A"), mw("B"), mw("C")))
+		}()
+		c.Eval(fmt.Sprintf("dial-through-chain/%v", short), true)
+		c.Count("late-registration")
+		if cl != nil {
+			defer cl.Close()
+		}
+		if panicked != "" || err != nil {
+			continue // C11 / C13 matter
+		}
+		dv := fmt.Sprint(uint32(kmip.OperationDiscoverVersions))
+		want := fmt.Sprintf("A>%s B>%s C>%s <C <B <A", dv, dv, dv)
+		wantWire, wantVer := 1, kmip.V1_4
+		if short {
+			want = fmt.Sprintf("A>%s B>%s <B <A", dv, dv)
+			wantWire, wantVer = 0, kmip.V1_2
+		}
+		got := strings.Join(trace, " ")
+		if got != want || wire != wantWire || cl.Version() != wantVer {
+			c.Fail("C19/client/dial-request-bypasses-chain", fmt.Sprintf("the version-discovery request of Dial ran [%s] with %d message(s) on the wire and version %v adopted; expected [%s], %d on the wire, %v", got, wire, cl.Version(), want, wantWire, wantVer), cj)
+		}
+	}
+}
+
+// c19ServerDebugConcurrent: the library's own server DebugMiddleware in front of the executor, eight requests
+// in flight at once with handlers of different durations: each caller gets the response to its own request.
+type c19SlowWriter struct{ mu sync.Mutex }
+
+func (w *c19SlowWriter) Write(p []byte) (int, error) {
+	w.mu.Lock()
+	defer w.mu.Unlock()
+	time.Sleep(200 * time.Microsecond)
+	return len(p), nil
+}
+
+func c19ServerDebugConcurrent(c *h.Ctx) {
+	cj := map[string]any{"kind": "late-registration", "sub": "server-debug-middleware-concurrent"}
+	c.Current(cj)
+	exec := kmipserver.NewBatchExecutor()
+	exec.Route(kmip.OperationActivate, c09HandlerFunc(func(_ context.Context, pl kmip.OperationPayload) (kmip.OperationPayload, error) {
+		id := pl.(*payloads.ActivateRequestPayload).UniqueIdentifier
+		time.Sleep(time.Duration(len(id)%5) * 300 * time.Microsecond)
+		return &payloads.ActivateResponsePayload{UniqueIdentifier: id}, nil
+	}))
+	exec.Use(kmipserver.DebugMiddleware(&c19SlowWriter{}, nil))
+	var wg sync.WaitGroup
+	bad := make([]string, 8)
+	for g := 0; g < 8; g++ {
+		wg.Add(1)
+		go func(g int) {
+			defer wg.Done()
+			defer func() {
+				if p := recover(); p != nil {
+					bad[g] = "panic: " + fmt.Sprint(p)
+				}
+			}()
+			for k := 0; k < 25; k++ {
+				id := fmt.Sprintf("g%d-%d-%s", g, k, strings.Repeat("x", (g+k)%5))
+				msg := kmip.NewRequestMessage(kmip.V1_4, &payloads.ActivateRequestPayload{UniqueIdentifier: id})
+				resp := exec.HandleRequest(context.Background(), &msg)
+				got := "(no response)"
+				if resp != nil && len(resp.BatchItem) == 1 {
+					if ap, ok := resp.BatchItem[0].ResponsePayload.(*payloads.ActivateResponsePayload); ok {
+						got = ap.UniqueIdentifier
+					}
+				}
+				if got != id {
+					bad[g] = fmt.Sprintf("the request for %q was answered with the response %q", id, got)
+					return
+				}
+			}
+		}(g)
+	}
+	wg.Wait()
+	c.Eval("server-debug-middleware-concurrent", true)
+	c.Count("late-registration")
+	for _, b := range bad {
+		if b != "" {
+			c.Fail("C19/server/result-of-another-request-passed-back", "with kmipserver.DebugMiddleware installed and eight requests in flight: "+b, cj)
 			return
 		}
 	}
